@@ -120,30 +120,34 @@ theorem get?_marshalDict_enc {σ : Schema} {m : Msg} (hwf : σ.wf = true) (ht : 
 
 /-- every typed entry reads back the attribute it was written from -/
 theorem OptStep.parse_marshal {σ : Schema} {O : Oracles} {m : Msg}
-    (hwf : σ.wf = true) (hwfO : σ.wfO O = true) (hnr : σ.noRoles = true)
+    (hwf : σ.wf = true) (hwfO : σ.wfO O = true)
     (hst : σ.strict O m = true) (hres : σ.residual O m = true) {s : OptStep} (hs : s ∈ σ.opts) :
     s.parse O (σ.marshalDict m) = .ok (m.get s.field) := by
-  have hr : s.ty.isRoles = false := by
-    simp only [Schema.noRoles, List.all_eq_true, Bool.not_eq_true'] at hnr
-    exact hnr s hs
   have hswf := (wf_parts hwf).2.2.2.2.2.2.2 s hs
   have hsres := (residual_parts hres).1 s hs
   unfold OptStep.parse
   rw [get?_marshalDict_opt hwf hwfO hst hs]
   by_cases hem : s.mm.emits (m.get s.field) (m.get s.mm.guard) = true
   · simp only [hem, if_true]
-    rw [OTy.encode_of_not_roles hr]
     unfold OptStep.residual at hsres
     rw [if_pos hem, Bool.and_eq_true] at hsres
-    exact OTy.check_of_valid O s.field hr hsres.1
+    exact OTy.check_encode_of_valid O s.field hsres.1
   · simp only [hem]
     unfold OptStep.residual at hsres
     rw [if_neg hem, Bool.and_eq_true, Bool.and_eq_true] at hsres
     obtain ⟨⟨hd, habs⟩, _⟩ := hsres
     have hreq : s.required = false := by
       simp only [OptStep.wf, Bool.and_eq_true] at hswf
-      have := hswf.1.2
-      cases hty : s.ty <;> simp_all [OTy.isRoles]
+      have h2 := hswf.1.2
+      cases hty : s.ty with
+      | roles a f =>
+        rw [hty] at h2
+        simp only [Bool.and_eq_true] at h2
+        have hmm : s.mm = .always := by
+          cases hm : s.mm <;> simp_all
+        rw [hmm] at hem
+        simp [MMode.emits] at hem
+      | _ => rw [hty] at h2; simpa using h2
     simp only [hreq]
     rw [isDflt_eq hd]
     cases hab : s.absentErrIf with
@@ -153,7 +157,7 @@ theorem OptStep.parse_marshal {σ : Schema} {O : Oracles} {m : Msg}
       simp [habs]
 
 theorem parseOpts_marshal_aux {σ : Schema} {O : Oracles} {m : Msg}
-    (hwf : σ.wf = true) (hwfO : σ.wfO O = true) (hnr : σ.noRoles = true)
+    (hwf : σ.wf = true) (hwfO : σ.wfO O = true)
     (hst : σ.strict O m = true) (hres : σ.residual O m = true) :
     ∀ ss : List OptStep, (∀ s ∈ ss, s ∈ σ.opts) →
       parseOpts O (σ.marshalDict m) ss = .ok (ss.map (fun s => (s.field, m.get s.field))) := by
@@ -164,13 +168,13 @@ theorem parseOpts_marshal_aux {σ : Schema} {O : Oracles} {m : Msg}
     intro h
     have hs := h s (List.mem_cons_self)
     have ht := ih (fun x hx => h x (List.mem_cons_of_mem _ hx))
-    simp only [parseOpts, OptStep.parse_marshal hwf hwfO hnr hst hres hs, ht, List.map_cons]
+    simp only [parseOpts, OptStep.parse_marshal hwf hwfO hst hres hs, ht, List.map_cons]
     rfl
 
 theorem parseOpts_marshal {σ : Schema} {O : Oracles} {m : Msg}
-    (hwf : σ.wf = true) (hwfO : σ.wfO O = true) (hnr : σ.noRoles = true)
+    (hwf : σ.wf = true) (hwfO : σ.wfO O = true)
     (hst : σ.strict O m = true) (hres : σ.residual O m = true) :
     parseOpts O (σ.marshalDict m) σ.opts = .ok (σ.opts.map (fun s => (s.field, m.get s.field))) :=
-  parseOpts_marshal_aux hwf hwfO hnr hst hres σ.opts (fun _ h => h)
+  parseOpts_marshal_aux hwf hwfO hst hres σ.opts (fun _ h => h)
 
 end Abverif.Wamp
